@@ -70,12 +70,13 @@ prop("C04", [
 prop("C05", [
     S(PARSE, "^TestC05Regress$", kind="plain"),
     S(PARSE, "^TestC05RepoLogs$", kind="plain"),
+    S(PARSE, "^TestC05BodySoup$", kind="plain", timeout_t=3000),
     S(PARSE, "^TestC05HeaderSoup$", kind="plain"),
     S(PARSE, "^TestC05$", q=60000, t=1000000, shards=16, timeout_t=3000),
     S(PARSE, "", kind="fuzz", fuzz="FuzzParse", fuzztime_t=120),
     S(PARSE, "", kind="fuzz", fuzz="FuzzParseLogLine", fuzztime_t=120),
 ], ["absence of panics/hangs is sampled, not proved", "hang watchdog: 30 s per case for work that takes microseconds"],
-   nontrivial_classes=["header-accepted", "header-soup-sweep", "enrich-type-1300", "enrich-type-1306", "enrich-type-1309", "enrich-type-1400", "enrich-type-1327"])
+   nontrivial_classes=["header-accepted", "header-soup-sweep", "body-soup-sweep", "enrich-type-1300", "enrich-type-1306", "enrich-type-1309", "enrich-type-1400", "enrich-type-1327"])
 
 prop("C12", [
     S(PARSE, "^TestC12Regress$", kind="plain"),
@@ -153,11 +154,13 @@ prop("C16", [
     S(CLIENT, "^TestC16Regress$", kind="plain"),
     S(CLIENT, "^TestC16Constants$", kind="plain"),
     S(CLIENT, "^TestC16FieldValues$", kind="plain"),
+    S(CLIENT, "^TestC16RealClients$", kind="plain"),
     S(CLIENT, "^TestC16Concurrent$", kind="plain", q=200, t=5000),
     S(CLIENT, "^TestC16Concurrent$", kind="plain", race=True, q=60, t=1000),
     S(CLIENT, "^TestC16$", q=20000, t=500000, shards=16),
 ], ["struct audit_status field offsets are written from the kernel header by hand; mask/feature bits and message types come from the header snapshot",
-    "fields only partly covered by an odd-length buffer are not asserted"],
+    "fields only partly covered by an odd-length buffer are not asserted",
+    "real-clients stage: GetStatus (AUDIT_GET, which changes nothing) on the clients NewAuditClient and NewMulticastAuditClient return, against the kernel's audit socket; skipped without the privilege"],
    nontrivial_classes=["set-with-receive-error", "set-nonzero", "set-after-unacknowledged-set", "get", "get-repeated-on-one-client", "field-value-sweep", "set-long-run-without-waiting", "wire-too-short", "wire-decoded"] + ["set-" + s for s in
                        ["SetPID", "SetRateLimit", "SetBacklogLimit", "SetEnabled", "SetImmutable", "SetFailure", "SetBacklogWaitTime"]])
 
@@ -178,6 +181,7 @@ prop("C18", [
     S(CLIENT, "^TestC18Multicast$", kind="plain", q=200, t=20000),
     S(CLIENT, "^TestC18AuditClientBuffer$", kind="plain"),
     S(CLIENT, "^TestC18FlagSweep$", kind="plain"),
+    S(CLIENT, "^TestC18SequenceWrap$", kind="plain"),
     S(CLIENT, "^TestC18Uevent$", kind="plain", q=60, t=3000),
     S(CLIENT, "^TestC18Concurrent$", kind="plain", race=True, q=200, t=5000),
     # the same stress without the race detector: its instrumentation changes the timing so much that
@@ -187,6 +191,7 @@ prop("C18", [
     "only side-effect-free requests: NETLINK_ROUTE message types above RTM_MAX with the REQUEST flag, which the kernel refuses with EOPNOTSUPP and echoes",
     "a zero-length datagram cannot be sent between netlink sockets (ENODATA); it is covered at parser level only",
     "uevent stage: synthetic 'change' events for the loopback device are requested through /sys/class/net/lo/uevent (a broadcast of text, as udevadm trigger causes; no device state changes); skipped where that is not possible",
+    "sequence-wrap stage: the client's unexported counter is set just below 2^32 through reflection (nothing else could reach the wrap); skipped if the field is renamed",
     "flag sweep: a second socket on NETLINK_AUDIT, messages of the unknown type 1098 with every value of nlmsg_flags (the audit subsystem refuses the type with EINVAL before it looks at anything else and echoes the message)",
     "audit-client stage: one socket on NETLINK_AUDIT, requests of the unknown message type 1098 only (refused with EINVAL before the audit subsystem looks at anything else; no state is read or changed)",
     "multicast stage: addresses are added to and removed from the loopback device of a private network namespace (unshare on one locked thread); without the privilege the stage is skipped and its class stays empty"],
@@ -208,11 +213,13 @@ prop("C15", [
     S(COAL, "^TestC15$", q=3000, t=50000, shards=16),
     S(COAL, "^TestC15CacheChurn$", kind="plain", timeout_t=3000),
     S(COAL, "^TestC15TableIsolation$", kind="plain"),
+    S(COAL, "^TestC15FirstSight$", kind="plain", race=True, q=20, t=300),
+    S(COAL, "^TestC15FirstSight$", kind="plain", q=40, t=1000),
     S(COAL, "^TestC15Concurrent$", kind="plain", race=True, q=300, t=20000, timeout_t=3000),
     S(COAL, "^TestC15Concurrent$", kind="plain", q=300, t=20000, timeout_t=3000),
 ], ["events are compared as deep copies with warnings by text; nil and empty containers are not distinguished",
     "ResolveIDs is meant to change the event it is given; that event's snapshot is refreshed, all others must stay equal"],
-   nontrivial_classes=["history-with-repeated-coalescing-of-stateful-group", "history-with-2-live-events", "concurrent-round", "cache-churn", "table-isolation-sweep"])
+   nontrivial_classes=["history-with-repeated-coalescing-of-stateful-group", "history-with-2-live-events", "concurrent-round", "first-sight-round", "cache-churn", "table-isolation-sweep"])
 
 TABLES = "props/tables"
 
